@@ -146,14 +146,15 @@ FALLBACK_DATA = dict(
         ("Characteristics", "quantum_efficiency", "(GRange (0) (1) false false)"),
         ("Characteristics", "charge_to_volt_conversion", "(GRange (0) (100) false false)"),
         ("Characteristics", "pre_amplification", "(GRange (0) (10000) false false)"),
-        ("Characteristics", "adc_bit_resolution", "GAny"), ("Characteristics", "adc_voltage_range", "GAny"),
+        ("Characteristics", "adc_bit_resolution", "(GRange (4) (64) false false)"),
+        ("Characteristics", "adc_voltage_range", "(GLen (2))"),
         ("Characteristics", "full_well_capacity", "(GRange (0) (10000000) false false)"),
         ("Environment", "temperature", "(GRange (0) (1000) true false)"), ("Environment", "wavelength", "(GAbove (0) true)"),
         ("APDCharacteristics", "quantum_efficiency", "(GRange (0) (1) false false)"),
         ("APDCharacteristics", "avalanche_gain", "(GRange (1) (1000) false false)"),
         ("APDCharacteristics", "pixel_reset_voltage", "GAny"), ("APDCharacteristics", "common_voltage", "GAny"),
         ("APDCharacteristics", "adc_bit_resolution", "(GRange (4) (64) false false)"),
-        ("APDCharacteristics", "adc_voltage_range", "GAny"),
+        ("APDCharacteristics", "adc_voltage_range", "(GLen (2))"),
         ("APDCharacteristics", "full_well_capacity", "(GRange (0) (10000000) false false)"),
     ],
 )
